@@ -28,31 +28,6 @@ VARIABLES fmt, calls,     \* chosen once: output format; the sequence of print()
 pvars == <<fmt, calls, ci, firstLine, outp>>
 
 \* ---- the Display form of a value in text / CSV records ----------------------
-Quote == <<39>>
-RECURSIVE ShowSeq(_, _)
-Two2(n) == <<48 + (n \div 10), 48 + (n % 10)>>
-Three3(n) == <<48 + (n \div 100), 48 + ((n \div 10) % 10), 48 + (n % 10)>>
-Four4(n) == <<48 + (n \div 1000), 48 + ((n \div 100) % 10), 48 + ((n \div 10) % 10), 48 + (n % 10)>>
-Show(v) ==
-  CASE v.t = "null" -> <<78, 85, 76, 76>>
-    \* INTERVAL: hh:mm:ss.mmm with the hours not wrapped at 24 (non-negative intervals; negative ones are not modelled)
-    [] v.t = "iv" -> IF v.ms < 0 THEN NoText
-                     ELSE LET secs == v.ms \div 1000
-                              h == secs \div 3600
-                          IN (IF h < 100 THEN Two2(h) ELSE DigitsOf(h)) \o <<58>> \o Two2((secs \div 60) % 60) \o <<58>> \o Two2(secs % 60) \o <<46>> \o Three3(v.ms % 1000)
-    \* TIMESTAMP: %Y-%m-%d %H:%M:%S.%3f
-    [] v.t = "ts" -> Four4(v.f[1]) \o <<45>> \o Two2(v.f[2]) \o <<45>> \o Two2(v.f[3]) \o <<32>> \o Two2(v.f[4]) \o <<58>> \o Two2(v.f[5]) \o <<58>> \o Two2(v.f[6])
-                     \o <<46>> \o Three3(v.f[7] \div 1000)
-    [] v.t = "text" -> Quote \o v.s \o Quote
-    [] v.t = "arr" -> <<123>> \o ShowSeq(v.xs, TRUE) \o <<125>>
-    [] OTHER -> TextOf(v)
-ShowSeq(xs, first) ==
-  IF xs = <<>> THEN <<>>
-  ELSE LET h == Show(Head(xs)) IN
-       IF h = NoText THEN NoText
-       ELSE LET r == ShowSeq(Tail(xs), FALSE) IN
-            IF r = NoText THEN NoText ELSE (IF first THEN <<>> ELSE <<44, 32>>) \o h \o r
-
 \* text values "free of delimiter, quote and line-break characters"
 PlainText(v) == v.t # "text" \/ \A i \in 1..Len(v.s) : v.s[i] \notin {59, 39, 34, 10, 13, 44}
 Modelled(row) == \A i \in 1..Len(row) : Show(row[i]) # NoText /\ PlainText(row[i]) /\ (row[i].t = "arr" => \A j \in 1..Len(row[i].xs) : PlainText(row[i].xs[j]))
